@@ -688,3 +688,38 @@ def check_C03(ctx):
                   "maps and the real encode -> decode result compared with the prediction, all other preserved fields being unchanged; "
                   "numeric, flag, enum, bookmark, colour and break edits (single and combined) are checked as a relation on generated maps; "
                   "non-trivial = distinct representable (field, string) pairs / base maps")
+
+
+# ----------------------------------------------------------------------------
+def check_C15(ctx):
+    thorough = ctx.tier == "thorough"
+    for m in ("TimingLines", "MapPost"):
+        sany(ctx, m)
+    name = "MC_MapPost_%s" % ("full" if thorough else "small")
+    cases = os.path.join(ctx.work, name + ".ndjson")
+    body = cases + ".body"
+    cfg = dict(spec="PSpec", invariants=["SortedStable", "ComboAfterBreak", "ClosedForms", "ShiftInvariant"],
+               constants=dict(Alpha="<-AlphaShape", Gens="<-GensTwo", MaxLines="0", Emit="FALSE", MaxObjs="2",
+                              TimesSet='"%s"' % ("full" if thorough else "small"), EmitPost="TRUE"))
+    r = tlc(ctx, "MapPost", name, cfg, workers=14, timeout=3000, cases_file=body)
+    with open(cases, "w") as f:
+        f.write(json.dumps({"alpha": r["alpha"]}) + "\n")
+        with open(body) as b:
+            for ln in b:
+                f.write(ln)
+    os.remove(body)
+    summ = harness(ctx, ["mappost", "replay"], cases_file=cases, name="mappost-replay", timeout=3600)
+    report_mismatches(ctx, summ, "map-level processing differs from the MapPost specification")
+    summ = harness(ctx, ["mappost", "relations", "--tier", ctx.tier], name="mappost-rel", timeout=3600)
+    report_mismatches(ctx, summ, "shifting all times of a file changes more than the times")
+    ctx.assumptions += ["exactness rule: beat lengths 200/400/800 (default 1000), slider multipliers 0.5/2, velocity points 0.5/1/2, path lengths "
+                        "100/200: velocities and durations are dyadic, so the `end + 5 ms` lookups are decided exactly",
+                        "breaks are listed in chronological order in the file",
+                        "the shift relation on real files is checked on files whose times are whole milliseconds (others are skipped)"]
+    return finish(ctx, "model_checking",
+                  "MapPost.tla composes the TimingLines decoder with the map-level processing (stable sort, break sweep, slider velocity and "
+                  "duration, sample defaults from the point active 5 ms after the end / each node); TLC enumerates every map of up to 2 objects "
+                  "(4 kinds x times incl. equal and near-boundary times x flags x sample shapes) x 5 timing sections x 5 break lists x multipliers "
+                  "x modes and checks ordering/stability, combo-after-break, the closed forms and that processing commutes with shifting all times; "
+                  "every case is replayed through HitObjects and Beatmap (a sample of them also shifted); the shift relation is evaluated on "
+                  "bundled and generated files; non-trivial = distinct cases with a slider or a break")
